@@ -292,6 +292,12 @@ POOL_QUICK = [[3, 3, 7, 7]]  # one parallel-branch shape on every change
 
 
 def large_cases(tier, seed):
+    for k, shape in enumerate(([2, 2, 64, 2], [2, 2, 2, 64], [3, 2, 41, 1], [2, 4, 3, 32], [2, 2, 70, 3], [2, 3, 1, 45])):
+        yield {"kind": "lopsided", "shape": shape, "k": k}
+    for shape in ([2, 2, 2, 2], [2, 3, 2, 2], [3, 2, 3, 2], [2, 2, 3, 4]):
+        for hidden in ("high", "low", "mixed"):
+            for delta in (1e-6, 8e-6):
+                yield {"kind": "nearperfect", "shape": shape, "hidden": hidden, "delta": delta}
     shapes = LARGE_QUICK + (LARGE_POOL if tier == "thorough" else POOL_QUICK)
     for shape in shapes:
         A, B, X, Y = shape
@@ -320,9 +326,75 @@ def large_cases(tier, seed):
                 yield {"shape": shape, "pred": p, "prob": d, "dtype": "f", "pool": big}
 
 
+def _lopsided_game(shape, k):
+    """Integer weights and a 0/1 (k even) or {0, 1/2, 1} (k odd) predicate from fixed arithmetic patterns; exact value by enumerating the
+    answer functions of the player with few strategies and letting the other best-respond question by question (Fractions)."""
+    from fractions import Fraction as Fr
+
+    A, B, X, Y = shape
+    W = [[1 + (3 * x + 5 * y + k) % 4 for y in range(Y)] for x in range(X)]
+    tot = sum(map(sum, W))
+    V = [[[[Fr(((a * (x + 1) + b * (y + 2) + (x * y) // 2 + k) % 3) % 2 * (2 if k % 2 == 0 else 1), 2) for y in range(Y)] for x in range(X)]
+          for b in range(B)] for a in range(A)]
+    small_is_bob = B ** Y <= A ** X
+    best = Fr(0)
+    if small_is_bob:
+        for g in itertools.product(range(B), repeat=Y):
+            val = sum(max(sum(W[x][y] * V[a][g[y]][x][y] for y in range(Y)) for a in range(A)) for x in range(X))
+            best = max(best, val)
+    else:
+        for f in itertools.product(range(A), repeat=X):
+            val = sum(max(sum(W[x][y] * V[f[x]][b][x][y] for x in range(X)) for b in range(B)) for y in range(Y))
+            best = max(best, val)
+    pred = np.array([[[[float(V[a][b][x][y]) for y in range(Y)] for x in range(X)] for b in range(B)] for a in range(A)])
+    prob = np.array(W, dtype=float) / tot
+    return prob, pred, float(best / tot)
+
+
 def large_check(case):
     """classical_check plus an outside observation of whether toqito created a multiprocessing.Pool (no source hook)."""
     import multiprocessing
+
+    if case.get("kind") == "nearperfect":
+        # fractional predicate: 1 on one hidden pair of answer functions, 1 - O(delta) everywhere else, so many strategies are within 1e-5
+        # of the trivial bound but only one attains it.  Added after seeded change C07-12 (early exit on np.isclose to the bound).
+        from toqito.nonlocal_games.nonlocal_game import NonlocalGame
+
+        A, B, X, Y = case["shape"]
+        delta = case["delta"]
+        fa = [(A - 1 - x) % A if case["hidden"] == "mixed" else (A - 1 if case["hidden"] == "high" else 0) for x in range(X)]
+        gb = [(y + 1) % B if case["hidden"] == "mixed" else (B - 1 if case["hidden"] == "high" else 0) for y in range(Y)]
+        pred = np.zeros((A, B, X, Y))
+        for a, b, x, y in itertools.product(range(A), range(B), range(X), range(Y)):
+            pred[a, b, x, y] = 1.0 if (a == fa[x] and b == gb[y]) else 1.0 - delta * (1 + (a + 2 * b + x + y) % 3)
+        W = np.array([[1 + (2 * x + y) % 3 for y in range(Y)] for x in range(X)], dtype=float)
+        g, exc = call(NonlocalGame, W / W.sum(), pred)
+        if exc is not None:
+            return viol("constructor raised: " + exc_text(exc), site="NonlocalGame:constructor")
+        v, exc = call(g.classical_value)
+        if exc is not None:
+            return viol("classical_value raised: " + exc_text(exc), site="classical_value:exception")
+        if abs(float(v) - 1.0) > 1e-9:
+            return viol(f"classical value {float(v)!r} of a game with a perfect deterministic strategy is not 1 (other strategies score "
+                        f"1 - O({delta}))", site="classical_value:nearperfect", observed=float(v), expected=1.0)
+        return ok(True, obs=float(v))
+    if case.get("kind") == "lopsided":
+        # one player has 2^63 or more deterministic strategies, the other a handful: the value is found by enumerating the small side.
+        # Added after seeded change C07-11, whose strategy counts were computed in int64 and wrapped around.
+        from toqito.nonlocal_games.nonlocal_game import NonlocalGame
+
+        prob, pred, expected = _lopsided_game(case["shape"], case["k"])
+        g, exc = call(NonlocalGame, prob, pred)
+        if exc is not None:
+            return viol("constructor raised: " + exc_text(exc), site="NonlocalGame:constructor")
+        v, exc = call(g.classical_value)
+        if exc is not None:
+            return viol("classical_value raised on a game with very unequal question sets: " + exc_text(exc), site="classical_value:exception")
+        if not np.isfinite(v) or abs(float(v) - expected) > 1e-9:
+            return viol(f"classical value {float(v)!r} != exact maximum {expected!r} (shape {case['shape']}: the small side has "
+                        f"{min(case['shape'][0] ** case['shape'][2], case['shape'][1] ** case['shape'][3])} strategies)",
+                        site="classical_value:lopsided", observed=float(v), expected=expected)
+        return ok(True, obs=float(v))
 
     real_pool = multiprocessing.Pool
     used = []
@@ -875,7 +947,7 @@ CLAUSES = [
            doc="classical_value == exact max over all pairs of deterministic answer functions; arrays untouched",
            alphabets=classical_alphabets, weight=0.001),
     Clause("C07.classical_large", large_cases, large_check, tol="exact reference; float result within 1e-9",
-           doc="same on shapes with 4-5 answers / up to 11 questions; thorough drives the >1000-strategy multiprocessing.Pool branch",
+           doc="same on shapes with 4-5 answers / up to 11 questions; the >1000-strategy multiprocessing.Pool branch; lopsided games (one side with >= 2^63 strategies); near-perfect fractional predicates",
            chunk=1, weight=1.0),
     Clause("C07.product_game", product_cases, product_check, tol="exact (1e-12 on float products)",
            doc="NonlocalGame(reps=r): prob_mat = pi^(x)r, pred_mat = prod_k V(a_k,b_k|x_k,y_k) in Kronecker order, reps kept; classical "
